@@ -87,3 +87,28 @@ def run_trace(item):
         out, ret = apply(style, a)
         tr["steps"].append({"a": a, "out": out, "ret": ret if isinstance(ret, str) else "", "post": project(style)})
     return tr
+
+
+def run_domname(item):
+    """one known property: set / get / delete through the DOM attribute TLC computed and through the CSS name"""
+    init()
+    r = dict(item)
+    rid = r.pop("id")
+    css_name = "".join(chr(c) for c in r["css"])
+    dom = "".join(chr(c) for c in r["dom"])
+    o = {"exists": hasattr(CSSStyleDeclaration, dom), "out": "ok", "byname": "", "keys": [], "byattr": "", "afterdel": -1}
+
+    def f():
+        st = CSSStyleDeclaration()
+        setattr(st, dom, "inherit")
+        o["byname"] = st.getPropertyValue(css_name)
+        o["keys"] = [[ord(c) for c in k] for k in st.keys()]
+        st2 = CSSStyleDeclaration()
+        st2.setProperty(css_name, "0")
+        o["byattr"] = getattr(st2, dom)
+        delattr(st2, dom)
+        o["afterdel"] = st2.length
+    if o["exists"]:
+        o["out"], _ = outcome(f)
+    a = {"kind": "domname", "css": r["css"], "dom": r["dom"], "name": css_name, "attr": dom}
+    return {"id": rid, "item": a, "init": {"x": 0}, "steps": [{"a": a, "out": "ok", "post": o}]}
